@@ -126,7 +126,7 @@ func genC16(concurrent bool) func(rng *Rng, sc *Scenario) {
 		withUses := (sc.Run/128)%2 == 1
 		op := RegOp{Op: "resource", Ctrl: mask, WithUses: withUses, Path: "/"}
 		if rng.Chance(1, 3) {
-			op.Path = "/api/"
+			op.Path = rng.Pick([]string{"/api/", "/api/", "/API/v2/", "/Shop/"})
 		}
 		for i, n := 0, rng.Intn(3); i < n; i++ {
 			op.MW = append(op.MW, fmt.Sprintf("m%d", i))
